@@ -162,16 +162,18 @@ def apply_sample_diffs(pic, dims, n, rnd):
     return out
 
 
-def set_padding_bits(raw_path, dims):
-    """set a bit that carries no sample information in the first sample of every component that has one"""
+def set_padding_bits(raw_path, vp, mode):
+    """Set a bit that carries no sample information in the first sample of every component that has one.
+    Where those bits are is a matter of the layout the code under test uses (C23 does not fix the layout), so
+    the implementation's own dimensions / bytes-per-sample are used to find them."""
+    from vc2_conformance.dimensions_and_depths import compute_dimensions_and_depths
+
     with open(raw_path, "rb") as f:
         data = bytearray(f.read())
     off = 0
     changed = False
-    for c in COMPS:
-        w, h, d = dims[c]
-        bps = own_bps(d)
-        if bps * 8 > d:
+    for c, (w, h, d, bps) in compute_dimensions_and_depths(vp, mode).items():
+        if bps * 8 > d and off + bps <= len(data):
             data[off + bps - 1] |= 0x80
             changed = True
         off += w * h * bps
@@ -242,12 +244,12 @@ def g_exec(case):
                 pb = make_picture(dims_b, "rand", 1, rnd)
             else:
                 pb = apply_sample_diffs(pa, dims, diff["n"], rnd)
-            pb["pic_num"] = (pa["pic_num"] + (1 if salt % 2 else (1 << 32) - 2)) if diff["number"] else pa["pic_num"]
+            pb["pic_num"] = (pa["pic_num"] + [1, 1 << 31, (1 << 32) - 2][salt % 3]) if diff["number"] else pa["pic_num"]
             fa, fb = base + "_a_3.raw", base + "_b_3.raw"
             file_format.write(pa, vp, mode, fa)
             file_format.write(pb, vpb, make_mode(fmt_b["fields"]), fb)
-            if diff["pad"] and not set_padding_bits(fb, dims_b):
-                raise RuntimeError("padding difference requested for a format without padding bits")
+            if diff["pad"] and not set_padding_bits(fb, vpb, make_mode(fmt_b["fields"])):
+                dis += 1  # the implementation's layout has no padding bits here: nothing to set
             msg, code = run_compare(fa, fb, salt % 4 == 0)
             if code != obs["exit"]:
                 viol.append(("C23|compare-exit|want%d|got%s" % (obs["exit"], code), "%s, differences %s: exit code %s (%r), expected %d" % (sig_fmt, diff, code, msg[:200], obs["exit"])))
@@ -381,7 +383,7 @@ def rec_cmp(arg):
         file_format.write(pa, vp, make_mode(fmt["fields"]), fa)
         file_format.write(pb, vpb, make_mode(fmt_b["fields"]), fb)
         if kind == "pad":
-            set_padding_bits(fb, dims_b)
+            set_padding_bits(fb, vpb, make_mode(fmt_b["fields"]))
         msg, code = run_compare(fa, fb, seed % 3 == 0)
         ev["exit"] = int(code)
         got = parse_counts(msg)
